@@ -1,6 +1,27 @@
-//! Kani harnesses for core/src/trie_pos.rs (compiled into the real crate only under cfg(kani)).
+//! Constructors for symbolic TriePosition values (fields are private to this module's parent).
 #![allow(unused_imports, dead_code)]
 use super::*;
+
+/// Any TriePosition constructible through the public API: depth 0..=256, arbitrary path bits.
+/// (`node_index` is not read by the proof code; it is left symbolic.)
+pub(crate) fn any_trie_pos() -> TriePosition {
+    let depth: u16 = kani::any();
+    kani::assume(depth <= 256);
+    TriePosition {
+        path: kani::any(),
+        depth,
+        node_index: kani::any(),
+    }
+}
+
+/// TriePosition with a concrete depth (keeps bit-slice lengths concrete for CBMC).
+pub(crate) fn trie_pos_with_depth(depth: u16) -> TriePosition {
+    TriePosition {
+        path: kani::any(),
+        depth,
+        node_index: kani::any(),
+    }
+}
 
 #[cfg(test)]
 include!("/verif/.build/playback/core_trie_pos.inc");
